@@ -235,7 +235,7 @@ def walkCmd (t : Sexp) : Sexp :=
   match readTree t with
   | none => .atom "bad-op"
   | some tree =>
-    let fuel := 200
+    let fuel := 100000   -- more than the depth of any tree the parser can produce from the sources used
     let lists := listNodeIds tree
     let wfOk := Visitor.wf Props.C20.jetSchema fuel tree
     let res := match Visitor.walk Facts.visitArms fuel tree with
